@@ -37,6 +37,48 @@ def exTree : Forest :=
 example : (lydPath exTree [0, 0, 2] .std (some 20)).map (fun b => (b.data, b.cap)) =
     some ([47, 109, 97, 58, 99, 47, 108, 91, 107, 49, 61, 39, 97, 32, 98, 39, 93], 20) := by decide
 
+/-- audit witness tree (three levels, two modules): container `ma:c` with
+    * two entries of the keyed list `l` that agree in `k1` and differ in `k2` (the second `k2` is `q]`); the second entry holds
+      two instances of the configuration leaf-list `ll` (`ü`, `it's`) and two equal-valued instances of the state leaf-list
+      `mb:sl` from an augmenting module;
+    * two entries of the key-less list `kl`, each with a leaf `y`. -/
+def auTree : Forest :=
+  [.mk [109, 97] [99] .inner []
+    [.mk [109, 97] [108] (.list true) []
+      [.mk [109, 97] [107, 49] (.leaf true) [97, 32, 98] [],
+       .mk [109, 97] [107, 50] (.leaf true) [105, 116, 39, 115] [],
+       .mk [109, 98] [120] (.leaf false) [118] []],
+     .mk [109, 97] [108] (.list true) []
+      [.mk [109, 97] [107, 49] (.leaf true) [97, 32, 98] [],
+       .mk [109, 97] [107, 50] (.leaf true) [113, 93] [],
+       .mk [109, 97] [108, 108] (.leaflist true) [195, 188] [],
+       .mk [109, 97] [108, 108] (.leaflist true) [105, 116, 39, 115] [],
+       .mk [109, 98] [115, 108] (.leaflist false) [115] [],
+       .mk [109, 98] [115, 108] (.leaflist false) [115] []],
+     .mk [109, 97] [107, 108] .keyless [] [.mk [109, 97] [121] (.leaf false) [49] []],
+     .mk [109, 97] [107, 108] .keyless [] [.mk [109, 97] [121] (.leaf false) [50] []]]]
+
+/-- chain of the node of `auTree` at address `a`.  The addresses used below:
+    `[0, 1, 3]` = `/ma:c/l[k1='a b'][k2='q]']/ll[.="it's"]`, `[0, 1, 5]` = `/ma:c/l[k1='a b'][k2='q]']/mb:sl[2]`,
+    `[0, 3, 0]` = `/ma:c/kl[2]/y`, `[0, 1, 0]` = `/ma:c/l[k1='a b'][k2='q]']/k1` (a key leaf) -/
+def auLevels (a : Addr) : List Level := (levels auTree a).getD []
+
+/-- the `i`-th element of that chain -/
+def auLevel (a : Addr) (i : Nat) : Level := (auLevels a).getD i ⟨[], 0, default, none⟩
+
+/-- non-vacuity (audit): `path_buffer_in_bounds` with a `realloc`ed buffer on the second `ll` instance of `auTree` (depth 3, key
+    and value predicates): six writes, the allocation grows 6 → 8 → 18 → 27 → 30 → 40 bytes for 39 characters -/
+example : ∃ b, lydPath auTree [0, 1, 3] .std none = some b ∧ (b.data.length, b.cap, b.log.length) = (39, 40, 6) ∧
+    (∀ w ∈ b.log, w.off + w.len ≤ w.cap) ∧ (b.log ≠ [] → b.data.length + 1 ≤ b.cap) := by
+  cases h : lydPath auTree [0, 1, 3] .std none with
+  | none => exact absurd h (by decide +kernel)
+  | some b =>
+    have hv : (lydPath auTree [0, 1, 3] .std none).map (fun b => (b.data.length, b.cap, b.log.length)) = some (39, 40, 6) := by
+      decide +kernel
+    rw [h] at hv
+    have := path_buffer_in_bounds _ _ _ _ b h
+    exact ⟨b, rfl, by simpa using hv, this.1, this.2⟩
+
 /-- **static_buffer_terminated** (full statement): whenever `lyd_path` returns the caller's buffer it has written a
     (possibly truncated) NUL-terminated path into it.  The pinned source lacks the up-front termination (finding F66):
     the statement is FALSE for it, TRUE once `buffer[0] = '\0'` is there — both proved relative to the generated fact
@@ -66,6 +108,21 @@ theorem static_buffer_terminated_fixed (hsrc : Generated.PathFmt.staticInitNul =
     · cases h
       exact printLevels_log _ _ _ (by simp [initBuf, hsrc])
     · cases h
+
+-- AUDIT (by design, no repair needed): `static_buffer_terminated_fails` and `static_buffer_terminated_fixed` each take an equation
+-- between the generated constant `Generated.PathFmt.staticInitNul` and a literal as hypothesis, so at any time exactly one of
+-- the two is vacuous.  On the current tree the constant is `true` (fix of F66 applied): `_fixed` is the live one and `_fails` is
+-- vacuous.  Both directions exist, which is what makes the pair meaningful; `static_buffer_terminated_iff_source` below states
+-- them as one unconditional theorem.  The current value is deliberately not pinned by an `example` here: the constant is
+-- regenerated from the source on every check run and a pinned value would break the build on the unfixed source.
+/-- audit: the full statement holds exactly when the source terminates the caller's buffer up front -/
+theorem static_buffer_terminated_iff_source : StaticBufferTerminated ↔ Generated.PathFmt.staticInitNul = true := by
+  constructor
+  · intro h
+    cases hs : Generated.PathFmt.staticInitNul with
+    | true => rfl
+    | false => exact absurd h (static_buffer_terminated_fails hs)
+  · exact static_buffer_terminated_fixed
 
 /-- the part that holds either way: a buffer with room for the first segment (`/module:name` + NUL) is written and
     terminated -/
@@ -105,6 +162,21 @@ theorem static_buffer_terminated_partial (f : Forest) (a : Addr) (pt : PathType)
 
 example : (lydPath exTree [0] .std (some 6)).map (fun b => (b.data, b.log.isEmpty)) = some ([47, 109, 97, 58, 99], false) := by
   decide
+
+/-- non-vacuity (audit): `static_buffer_terminated_partial` at the depth-3 node `[0, 1, 3]` of `auTree` with a 20-byte buffer:
+    room for the first segment (6 bytes), the output is cut inside the predicates of the second segment -/
+example : ∃ b, lydPath auTree [0, 1, 3] .std (some 20) = some b ∧
+    b.data = [47, 109, 97, 58, 99, 47, 108, 91, 107, 49, 61, 39, 97, 32, 98, 39, 93] ∧      -- /ma:c/l[k1='a b']
+    b.log ≠ [] ∧ b.data.length + 1 ≤ b.cap := by
+  cases h : lydPath auTree [0, 1, 3] .std (some 20) with
+  | none => exact absurd h (by decide +kernel)
+  | some b =>
+    have hv : (lydPath auTree [0, 1, 3] .std (some 20)).map (·.data) =
+        some [47, 109, 97, 58, 99, 47, 108, 91, 107, 49, 61, 39, 97, 32, 98, 39, 93] := by decide +kernel
+    rw [h] at hv
+    have := static_buffer_terminated_partial auTree [0, 1, 3] .std 20 b (auLevel [0, 1, 3] 0) (auLevels [0, 1, 3]).tail h rfl
+      (by decide +kernel)
+    exact ⟨b, rfl, by simpa using hv, this.1, this.2⟩
 
 /-! ## printed predicates and paths are read back -/
 
@@ -158,6 +230,21 @@ example : ∃ l : Level, l.Printable ∧ l.KeysNodup ∧
   ⟨⟨exTree[0]!.children, 0, exTree[0]!.children[0]!, some [109, 97]⟩,
     ⟨by decide, by decide, by decide, by decide, by decide⟩, by decide, by decide, by decide⟩
 
+/-- non-vacuity (audit): `pred_roundtrip_partial` at the three other predicate forms, on `auTree`: the second list entry (a key value
+    with `]` in it), the second `ll` instance (`[.="it's"]`, quoted with `"`), the second `mb:sl` instance (`[2]`) -/
+example :
+    (predText (auLevel [0, 1, 3] 1) = [91, 107, 49, 61, 39, 97, 32, 98, 39, 93, 91, 107, 50, 61, 39, 113, 93, 39, 93] ∧    -- [k1='a b'][k2='q]']
+      (tokenize (predText (auLevel [0, 1, 3] 1))).bind parsePred =
+        some (.keys [([107, 49], .lit [97, 32, 98]), ([107, 50], .lit [113, 93])], [])) ∧
+    (predText (auLevel [0, 1, 3] 2) = [91, 46, 61, 34, 105, 116, 39, 115, 34, 93] ∧                                      -- [.="it's"]
+      (tokenize (predText (auLevel [0, 1, 3] 2))).bind parsePred = some (.dot (.lit [105, 116, 39, 115]), [])) ∧
+    (predText (auLevel [0, 1, 5] 2) = [91, 50, 93] ∧                                                                      -- [2]
+      (tokenize (predText (auLevel [0, 1, 5] 2))).bind parsePred = some (.pos [50], [])) := by
+  refine ⟨⟨by decide +kernel, ?_⟩, ⟨by decide +kernel, ?_⟩, ⟨by decide +kernel, ?_⟩⟩
+  · rw [pred_roundtrip_partial _ (by decide +kernel) (by decide +kernel) (by decide +kernel)]; decide +kernel
+  · rw [pred_roundtrip_partial _ (by decide +kernel) (by decide +kernel) (by decide +kernel)]; decide +kernel
+  · rw [pred_roundtrip_partial _ (by decide +kernel) (by decide +kernel) (by decide +kernel)]; decide +kernel
+
 /-- **path_parse_print.** For every node of every tree (names identifiers, predicate values with a literal form):
     `ly_path_parse` applied to the path `lyd_path` prints is accepted as an absolute path and yields one step per
     element of the node's ancestor-or-self chain — the name, prefixed with the module exactly where the module differs
@@ -193,6 +280,24 @@ example :
        ⟨[109, 98, 58, 120], .none⟩] := by
   decide
 
+/-- non-vacuity (audit): the three hypotheses of `path_parse_print` at four nodes of `auTree` (depth 3; key, value and position
+    predicates; a prefix where the module changes), and the theorem instantiated at each -/
+example : ∀ a ∈ [[0, 1, 3], [0, 1, 5], [0, 3, 0], [0, 1, 0]],
+    ∃ p, pathOf auTree a = some p ∧ parsePath p = some (true, stepsOf true (auLevels a)) := by
+  intro a ha
+  simp only [List.mem_cons, List.not_mem_nil, or_false] at ha
+  rcases ha with rfl | rfl | rfl | rfl <;>
+    exact path_parse_print auTree _ _ rfl (by decide) (by decide +kernel)
+
+/-- …with the printed paths: `/ma:c/l[k1='a b'][k2='q]']/ll[.="it's"]`, `/ma:c/l[k1='a b'][k2='q]']/mb:sl[2]`, `/ma:c/kl[2]/y` -/
+example :
+    pathOf auTree [0, 1, 3] = some [47, 109, 97, 58, 99, 47, 108, 91, 107, 49, 61, 39, 97, 32, 98, 39, 93, 91, 107, 50, 61, 39,
+      113, 93, 39, 93, 47, 108, 108, 91, 46, 61, 34, 105, 116, 39, 115, 34, 93] ∧
+    pathOf auTree [0, 1, 5] = some [47, 109, 97, 58, 99, 47, 108, 91, 107, 49, 61, 39, 97, 32, 98, 39, 93, 91, 107, 50, 61, 39,
+      113, 93, 39, 93, 47, 109, 98, 58, 115, 108, 91, 50, 93] ∧
+    pathOf auTree [0, 3, 0] = some [47, 109, 97, 58, 99, 47, 107, 108, 91, 50, 93, 47, 121] := by
+  decide +kernel
+
 /-! ## searching and creating along the printed path -/
 
 /-- What the theorems below ask of a node's ancestor-or-self chain `ls` in tree `f` under schema `schema`:
@@ -221,6 +326,41 @@ theorem ChainOK.compiled {schema : List SNode} {f : Forest} {a : Addr} {ls : Lis
   · have hc := compileSteps_levels single a f none ls schema none h.levels h.conforms h.printable trivial
     simp [compilePath, hparse, hc]
 
+-- AUDIT (resolved by the witnesses below): `ChainOK` bundles five hypotheses, two of them (`addressable`, `conforms`) with
+-- case-dependent content.  Before the audit its only kernel-checked instance was a one-element chain of a top-level key-less
+-- list (`f50_chainOK` and the example after it); the closing example of this file evaluates `findPath`/`newPath` on `exTree` but
+-- does not show that `exTree` satisfies `ChainOK`.  `au_chainOK` and `ex_chainOK` establish it for depth-3 chains through a
+-- container and a keyed list entry that has an earlier sibling entry sharing one key, ending in: a configuration leaf-list
+-- instance (by value, earlier instance present), a state leaf-list instance of an augmenting module (by position 2, equal
+-- values), a leaf below the second entry of a nested key-less list, a key leaf, a leaf of an augmenting module.  The Boolean
+-- sufficient conditions used (`Level.addressableB`, `conformsB`, …) are in `Path/LemmasNew.lean`.
+
+/-- schema of `auTree` -/
+def auSchema : List SNode :=
+  [.mk [109, 97] [99] .inner
+    [.mk [109, 97] [108] (.list true)
+      [.mk [109, 97] [107, 49] (.leaf true) [], .mk [109, 97] [107, 50] (.leaf true) [],
+       .mk [109, 98] [120] (.leaf false) [], .mk [109, 97] [108, 108] (.leaflist true) [],
+       .mk [109, 98] [115, 108] (.leaflist false) []],
+     .mk [109, 97] [107, 108] .keyless [.mk [109, 97] [121] (.leaf false) []]]]
+
+/-- the four addresses of `auTree` the witnesses use (see `auLevels`) -/
+def auAddrs : List Addr := [[0, 1, 3], [0, 1, 5], [0, 3, 0], [0, 1, 0]]
+
+/-- non-vacuity (audit): `ChainOK` holds for the four depth-3 chains of `auTree` -/
+theorem au_chainOK : ∀ a ∈ auAddrs, ChainOK auSchema auTree a (auLevels a) := by
+  intro a ha
+  simp only [auAddrs, List.mem_cons, List.not_mem_nil, or_false] at ha
+  rcases ha with rfl | rfl | rfl | rfl <;>
+    exact ⟨rfl, by decide, by decide +kernel,
+      fun l hl => Level.addressable_of_check l (List.all_eq_true.mp (by decide +kernel) l hl),
+      conforms_of_check _ _ (by decide +kernel)⟩
+
+/-- non-vacuity (audit): `ChainOK.compiled` on them, in both target modes -/
+example : ∀ a ∈ auAddrs, ∀ single, ∃ p, pathOf auTree a = some p ∧ p.head? = some 47 ∧
+    compilePath auSchema single p = .ok ((auLevels a).map cstepOf) :=
+  fun a ha single => (au_chainOK a ha).compiled single
+
 /-- **path_finds_node.** For every node whose chain is `ChainOK`: the path `lyd_path` prints for it is accepted by
     `lyd_find_path` (parse, compile against the schema, evaluate) and the search returns exactly that node — by key
     predicates for keyed lists, by value for configuration leaf-lists, by position for key-less lists and state
@@ -236,6 +376,14 @@ theorem path_finds_node (schema : List SNode) (f : Forest) (a : Addr) (ls : List
     | cons _ _ => simp
   simp [findPath, hc, evalPath, he, hlen]
 
+-- AUDIT (scope): C15 also claims that *XPath* search (`lyd_find_xpath`) on the printed path returns the node.  No theorem of this
+-- file covers that half (the XPath route is compared by the correspondence check only; known finding F68 lives there).
+/-- non-vacuity (audit): `path_finds_node` at the four nodes of `auTree`; for the second `ll` instance with the printed path -/
+example : (∀ a ∈ auAddrs, ∃ p, pathOf auTree a = some p ∧ findPath auSchema auTree p = .ok a) ∧
+    (findPath auSchema auTree [47, 109, 97, 58, 99, 47, 108, 91, 107, 49, 61, 39, 97, 32, 98, 39, 93, 91, 107, 50, 61, 39,
+      113, 93, 39, 93, 47, 108, 108, 91, 46, 61, 34, 105, 116, 39, 115, 34, 93]).toOption = some [0, 1, 3] :=
+  ⟨fun a ha => path_finds_node _ _ _ _ (au_chainOK a ha), by decide +kernel⟩
+
 theorem conforms_hasKey : ∀ (ls : List Level) (sch : List SNode), Conforms sch ls → ∀ l ∈ ls, l.HasKey := by
   intro ls
   induction ls with
@@ -247,6 +395,10 @@ theorem conforms_hasKey : ∀ (ls : List Level) (sch : List SNode), Conforms sch
     rcases hl with rfl | hl
     · exact hso.hasKey
     · exact ih s.children hrest l hl
+
+/-- non-vacuity (audit): `conforms_hasKey` on the chains of `auTree` (each contains a keyed list entry) -/
+example : ∀ a ∈ auAddrs, ∀ l ∈ auLevels a, l.HasKey :=
+  fun a ha => conforms_hasKey _ _ (au_chainOK a ha).conforms
 
 /-- **new_path_exists.** `lyd_new_path` with the printed path of a node that exists (in a tree without default-flagged
     nodes, any value, no `LYD_NEW_PATH_UPDATE`) reports `LY_EEXIST` — for every node, also the position-addressed
@@ -262,6 +414,10 @@ theorem new_path_exists (schema : List SNode) (f : Forest) (a : Addr) (ls : List
     | nil => exact absurd hls h.ne
     | cons _ _ => simp
   simp [newPath, hhead, hc, hcf, he, hlen]
+
+/-- non-vacuity (audit): `new_path_exists` at the four nodes of `auTree`, incl. the position-addressed `mb:sl[2]` and `kl[2]/y` -/
+example : ∀ a ∈ auAddrs, ∃ p, pathOf auTree a = some p ∧ newPath auSchema auTree p [118] = .error .exists :=
+  fun a ha => new_path_exists _ _ _ _ [118] (au_chainOK a ha)
 
 /-- the value of the last chain element: what the caller passes to `lyd_new_path` -/
 def lastValue : List Level → Bytes
@@ -282,6 +438,10 @@ theorem lastValueIs_lastValue : ∀ (ls : List Level), lastValueIs (lastValue ls
 def TopPositionAbove1 : List Level → Prop
   | [] => False
   | l :: _ => l.node.kind.dupInst = true ∧ 1 < listPos l.sibs l.idx l.node
+
+instance : (ls : List Level) → Decidable (TopPositionAbove1 ls)
+  | [] => isFalse (fun h => h)
+  | l :: _ => inferInstanceAs (Decidable (l.node.kind.dupInst = true ∧ 1 < listPos l.sibs l.idx l.node))
 
 /-- **new_path_chain** (full statement): `lyd_new_path(NULL, ctx, lyd_path(n), value(n))` creates, in an empty tree, a
     chain equal (content-wise: names, modules, kinds, key leaves, value) to `n` and its ancestors.
@@ -383,6 +543,37 @@ theorem new_path_chain_partial (schema : List SNode) (f : Forest) (a : Addr) (ls
           simp [cstepOf, cpredOf, hk, Kind.dupInst, instCount, firstIdx]; omega
   simp [newPath, hhead, hcomp, hcf, evalSteps_empty, childrenAt, hposbad, hcreate, hc]
 
+/-- non-vacuity (audit): all four hypotheses of `new_path_chain_partial` at the four nodes of `auTree` (the position-addressed
+    elements are nested, so `TopPositionAbove1` does not apply), and the theorem instantiated at each -/
+example : ∀ a ∈ auAddrs, ∃ p c, pathOf auTree a = some p ∧ chainOf (auLevels a) = some c ∧
+    newPath auSchema [] p (lastValue (auLevels a)) = .ok ⟨[], c⟩ := by
+  intro a ha
+  have hok := au_chainOK a ha
+  simp only [auAddrs, List.mem_cons, List.not_mem_nil, or_false] at ha
+  have hterm : ∀ l ∈ auLevels a, l.TermNoKids := by
+    intro l hl
+    refine Level.termNoKids_of_check l (List.all_eq_true.mp ?_ l hl)
+    rcases ha with rfl | rfl | rfl | rfl <;> decide +kernel
+  have hpos : ¬ TopPositionAbove1 (auLevels a) := by
+    rcases ha with rfl | rfl | rfl | rfl <;> decide +kernel
+  cases hc : chainOf (auLevels a) with
+  | none =>
+    have : (chainOf (auLevels a)).isSome = true := by rcases ha with rfl | rfl | rfl | rfl <;> decide +kernel
+    rw [hc] at this; cases this
+  | some c =>
+    obtain ⟨p, hp, hn⟩ := new_path_chain_partial _ _ _ _ c hok hterm hc hpos
+    exact ⟨p, c, hp, rfl, hn⟩
+
+/-- …and what is created for `/ma:c/l[k1='a b'][k2='q]']/mb:sl[2]` with value `s`: the container, the list entry with its two key
+    leaves, and the state leaf-list instance of module `mb` (as the first instance) -/
+example : lastValue (auLevels [0, 1, 5]) = [115] ∧
+    (newPath auSchema [] [47, 109, 97, 58, 99, 47, 108, 91, 107, 49, 61, 39, 97, 32, 98, 39, 93, 91, 107, 50, 61, 39,
+      113, 93, 39, 93, 47, 109, 98, 58, 115, 108, 91, 50, 93] [115]).toOption.map (fun c => (c.parent, c.chain.flat 0)) =
+      some ([], [⟨[109, 97], [99], .inner, [], 0⟩, ⟨[109, 97], [108], .list true, [], 1⟩,
+        ⟨[109, 97], [107, 49], .leaf true, [97, 32, 98], 2⟩, ⟨[109, 97], [107, 50], .leaf true, [113, 93], 2⟩,
+        ⟨[109, 98], [115, 108], .leaflist false, [115], 2⟩]) := by
+  decide +kernel
+
 /-- non-vacuity of the three theorems above: the leaf `mb:x` of `exTree` under a two-module schema -/
 def exSchema : List SNode :=
   [.mk [109, 97] [99] .inner
@@ -402,5 +593,21 @@ example : pathOf exTree [0, 0, 2] = some exPath ∧
         ⟨[109, 97], [107, 49], .leaf true, [97, 32, 98], 2⟩, ⟨[109, 97], [107, 50], .leaf true, [105, 116, 39, 115], 2⟩,
         ⟨[109, 98], [120], .leaf false, [118], 2⟩]) := by
   decide +kernel
+
+/-- non-vacuity (audit): the hypotheses themselves for that node — `ChainOK` of the chain of `mb:x` in `exTree`, terminals without
+    children, top-level element not position-addressed — so the evaluation above is an instance of `path_finds_node`,
+    `new_path_exists` and `new_path_chain_partial`, not only a computation -/
+theorem ex_chainOK : ChainOK exSchema exTree [0, 0, 2] ((levels exTree [0, 0, 2]).getD []) :=
+  ⟨rfl, by decide, by decide +kernel,
+    fun l hl => Level.addressable_of_check l (List.all_eq_true.mp (by decide +kernel) l hl),
+    conforms_of_check _ _ (by decide +kernel)⟩
+
+example : findPath exSchema exTree exPath = .ok [0, 0, 2] ∧ newPath exSchema exTree exPath [118] = .error .exists := by
+  obtain ⟨p, hp, hf⟩ := path_finds_node _ _ _ _ ex_chainOK
+  obtain ⟨p', hp', hn⟩ := new_path_exists _ _ _ _ [118] ex_chainOK
+  have he : pathOf exTree [0, 0, 2] = some exPath := by decide +kernel
+  rw [he] at hp hp'
+  cases hp; cases hp'
+  exact ⟨hf, hn⟩
 
 end LyModel.Props.C15
